@@ -83,6 +83,11 @@ func (u undelegateTx) Validate(ctx *action.Context, tx action.SignedTx) (bool, e
 	if err = ud.Delegator.Err(); err != nil {
 		return false, action.ErrInvalidAddress
 	}
+	// only a non-negative OLT amount can be undelegated (an unknown currency would
+	// reach Coin.Minus, which exits the process on a currency mismatch)
+	if !ud.Amount.IsValid(ctx.Currencies) || ud.Amount.Currency != "OLT" {
+		return false, errors.Wrap(action.ErrInvalidAmount, ud.Amount.String())
+	}
 
 	return true, nil
 }
